@@ -178,8 +178,33 @@ func closeWhileParkedFor(hold time.Duration, point string, prepare func(s *store
 		return "Close did not return within 5 s after the cycle was released"
 	}
 	verifhook.Set(nil)
-	return census(dir, 3*gcInt)
+	if bad := census(dir, 3*gcInt); bad != "" {
+		return bad
+	}
+	if lowUseContents {
+		// C02: what Close wrote is what a reopen finds - also when a cycle (a relocation) was in progress while Close ran
+		os.Remove(filepath.Join(dir, "i.buckets"))
+		s2, err := open(dir, time.Hour, time.Hour, pmax, extra...)
+		if err != nil {
+			return "contents: reopen after Close: " + err.Error()
+		}
+		defer s2.Close()
+		for b := byte(1); b <= 6; b++ {
+			v, ok, err := s2.Get(key(b))
+			if err != nil || !ok || !bytes.Equal(v, bytes.Repeat([]byte{'A' + b}, 18)) {
+				return fmt.Sprintf("contents: after Close (during a GC cycle) and reopen Get(key %d) = %q found=%v err=%v", b, v, ok, err)
+			}
+		}
+		v, ok, err := s2.Get(key(9))
+		if err != nil || !ok || !bytes.Equal(v, bytes.Repeat([]byte{'1'}, 18)) {
+			return fmt.Sprintf("contents: after Close (during a GC cycle) and reopen Get(key 9) = %q found=%v err=%v", v, ok, err)
+		}
+	}
+	return ""
 }
+
+// lowUseContents: the scenario prepared the store with lowUse; after Close the contents are read back
+var lowUseContents bool
 
 var scenarios = []scenario{
 	{"open-start-ops-close-cycles", func(rng *rand.Rand) string {
@@ -298,9 +323,13 @@ var scenarios = []scenario{
 		return census(dir, 30*time.Millisecond)
 	}},
 	{"close-during-primary-gc-relocation", func(rng *rand.Rand) string {
+		lowUseContents = true
+		defer func() { lowUseContents = false }()
 		return closeWhileParked("gc.reap.beforeUpdateIndex", lowUse, 60*time.Millisecond, 190)
 	}},
 	{"close-during-primary-gc-after-freelist", func(rng *rand.Rand) string {
+		lowUseContents = true
+		defer func() { lowUseContents = false }()
 		return closeWhileParked("gc.afterFreeList", lowUse, 60*time.Millisecond, 190)
 	}},
 	{"close-while-a-primary-gc-cycle-outlasts-the-gc-interval", func(rng *rand.Rand) string {
